@@ -44,7 +44,8 @@ def _readable(w):
 class ChainCZ:
     """abstract chain (from TLC or a generator) -> real objects and back"""
 
-    def __init__(self, rng, names, real_only=False):
+    def __init__(self, rng, names, real_only=False, zero=False):
+        self.zero = zero          # one branching-fraction token may stand for the default value 0
         # concrete names whose Python sort order realises an arbitrary rank of the abstract names
         pool = [w for w in decio.label_pool() if _readable(w) and " " not in w]
         if real_only:
@@ -67,7 +68,10 @@ class ChainCZ:
 
     def bf(self, tok):
         if tok not in self.bfs:
-            self.bfs[tok] = Fraction(1, PRIMES[len(self.bfs)])
+            if self.zero and 0 not in self.bfs.values() and self.rng.random() < 0.2:
+                self.bfs[tok] = 0
+            else:
+                self.bfs[tok] = Fraction(1, PRIMES[len(self.bfs)])
         return self.bfs[tok]
 
     def meta(self, tok):
@@ -124,7 +128,9 @@ def daughters_list(cz, d, rng=None):
     return out
 
 
-def build_chain(cz, c, order=None, rng=None, bf_float=False):
+def build_chain(cz, c, order=None, rng=None, bf_float=False, zero_bf=None):
+    """zero_bf: names of decaying particles whose mode gets the default branching fraction 0 (only where the value of
+    the branching fraction plays no part: descriptors)"""
     from decaylanguage import DecayChain, DecayMode
     decs = {d["n"]: d for d in c["decays"]}
     order = order or [d["n"] for d in c["decays"]]
@@ -142,7 +148,10 @@ def build_chain(cz, c, order=None, rng=None, bf_float=False):
         else:
             dd = ds
         bf = cz.bf(d["bf"])
-        modes[cz.names[n]] = DecayMode(float(bf) if bf_float else bf, dd, **copy.deepcopy(cz.meta(d["meta"])))
+        if zero_bf and n in zero_bf:
+            bf = zero_bf[n]
+        modes[cz.names[n]] = DecayMode(float(bf) if bf_float and not (zero_bf and n in zero_bf) else bf, dd,
+                                       **copy.deepcopy(cz.meta(d["meta"])))
     return DecayChain(cz.names[c["mother"]], modes)
 
 
